@@ -146,75 +146,115 @@ def code_match(b):
     return ms[0]
 
 
+def observed(facts, text):
+    """anstyle_ls::parse(text) by abstract evaluation with concrete strings: None, or (fg, bg, underline, effect bits)."""
+    import abseval
+    ev = abseval.Evaluator(facts, "anstyle_ls", {}, inline_crates=("anstyle",))
+    ev.concrete_strings = True
+    r = ev.call_fn("anstyle_ls", F, [("str", text)])
+
+    def colour(v):
+        if v == ("none",):
+            return None
+        c = v[1]
+        if c[0] == "ctor" and c[1].endswith("Color::Ansi"):
+            return ("ansi", c[2][1].split("::")[-1])
+        if c[0] == "ctor" and c[1].endswith("Color::Ansi256"):
+            return ("idx", c[2][2][1])
+        if c[0] == "ctor" and c[1].endswith("Color::Rgb"):
+            return ("rgb",) + tuple(x[1] for x in c[2][2:])
+        raise Unrecognised(f"colour value {str(c)[:60]}")
+    if r == ("none",):
+        return None
+    if r[0] == "some" and r[1][0] == "rec":
+        st = r[1][1]
+        return (colour(st["fg"]), colour(st["bg"]), colour(st["underline"]), st["effects"][2][1])
+    raise Unrecognised(f"parse evaluates to {str(r)[:80]}")
+
+
 def rule_codes(facts, rep):
+    """Every code 0..=255 is applied to a style in which its effect is visible, and the result compared with the SGR table: by
+    evaluation of `parse` on the description, so a match of literals, range arms with arithmetic, a helper, a lookup table are
+    one function."""
     b = facts.body("anstyle_ls", F)
     rep.fn(b["path"])
-    m = code_match(b)
-    table = {}
-    default_ok = False
-    extended = {}
-    for a in m["arms"]:
-        ints = hir.pat_ints(a["pat"])
-        if ints is None:
-            default_ok = not [x for x in hir.stmts_of(a["body"]) if not (hir.simp(x).get("k") == "tuple" and not hir.simp(x)["es"])]
-            continue
-        body = hir.simp(a["body"])
-        if body.get("k") == "match":
-            for i in ints:
-                extended[i] = a
-            continue
+    bit = {n_: v for n_, v, _ in ac.effect_consts(facts)}
+    on_codes = [c for c in range(1, 10)]
+    ALLON = ";".join(str(c) for c in on_codes)
+    all_bits = 0
+    for c in on_codes:
+        all_bits |= bit[sgr.EFFECT_ON[c]]
+    PRE = "1;31;42;58;5;9"                     # bold, red on green, underline colour 9
+    pre_state = (("ansi", "Red"), ("ansi", "Green"), ("idx", 9), bit["BOLD"])
+
+    def run(text):
         try:
-            ops = arm_update(a["body"])
+            return observed(facts, text)
         except Unrecognised as ex:
-            ops = [("unreadable", str(ex))]
-        for i in ints:
-            table[i] = (ops, a)
-    rep.check(default_ok, "codes", b["path"], "unknown-codes-ignored", "the catch-all arm is empty", loc(b, m))
-    on_able = {e for (ops, _) in table.values() for o in ops if o[0] == "on" for e in [o[1]]}
+            return ("not-evaluable", str(ex)[:80])
+    rep.check(run(PRE) == pre_state and run(ALLON) == (None, None, None, all_bits), "codes", b["path"], "baseline",
+              f"the two reference descriptions evaluate as expected: {run(PRE)} / {run(ALLON)}", loc(b))
     for code in range(0, 256):
-        want = None
+        if code in (38, 48, 58):
+            continue
+        got = run(f"{PRE};{code}")
+        fg, bg, ul, eff = pre_state
+        want, why, tolerated = None, "", []
         if code == 0:
-            want = "reset"
+            want, why = (None, None, None, 0), "0 resets effects and all three colours"
         elif code in range(1, 10):
-            want = [("on", sgr.EFFECT_ON[code])]
+            want, why = (fg, bg, ul, eff | bit[sgr.EFFECT_ON[code]]), f"{code} switches {sgr.EFFECT_ON[code]} on"
         elif code in sgr.EFFECT_OFF:
-            want = "off"
+            got = run(f"{ALLON};{code}")
+            required = 0
+            for e_ in sgr.EFFECT_OFF[code]:
+                if bit[e_] & all_bits:
+                    required |= bit[e_]
+            want, why = (None, None, None, all_bits & ~required), f"{code} switches off {sorted(sgr.EFFECT_OFF[code])}"
         elif sgr.colour_code(code):
             slot, name = sgr.colour_code(code)
-            want = [(slot, ("ansi", name))]
+            want = (("ansi", name) if slot == "fg" else fg, ("ansi", name) if slot == "bg" else bg, ul, eff)
+            why = f"{code} sets the {slot} colour {name}"
         elif code in (39, 49, 59):
-            slot = {39: "fg", 49: "bg", 59: "underline"}[code]
-            want = [(slot, ("none",))]
-        elif code in (38, 48, 58):
-            rep.check(code in extended, "codes", b["path"], f"{code}", "extended-colour introducer must look ahead", loc(b, m))
-            rep.count()
-            continue
-        got = table.get(code)
-        if want is None:
-            # codes the property does not list: must be ignored or follow SGR (21 = double underline would be fine)
-            if got is None:
-                continue
-            ops = got[0]
-            ok = (code in sgr.EFFECT_ON and ops == [("on", sgr.EFFECT_ON[code])])
-            rep.check(ok, "codes", b["path"], f"{code}", f"code {code} is not in the property's list; the arm does {ops}", loc(b, got[1]))
-            continue
-        rep.count()
-        if got is None:
-            rep.bad("codes", b["path"], f"{code}", f"no arm for SGR {code}", loc(b, m))
-            continue
-        ops = got[0]
-        if want == "reset":
-            ok = sorted(ops) == sorted([("effects-default",), ("fg", ("none",)), ("bg", ("none",)), ("underline", ("none",))])
-            why = "0 resets effects and all three colours"
-        elif want == "off":
-            off = {o[1] for o in ops if o[0] == "off"}
-            required = sgr.EFFECT_OFF[code] & on_able
-            ok = all(o[0] == "off" for o in ops) and required <= off <= sgr.EFFECT_OFF[code]
-            why = f"{code} switches off {sorted(required)} (and nothing outside {sorted(sgr.EFFECT_OFF[code])})"
+            want = (None if code == 39 else fg, None if code == 49 else bg, None if code == 59 else ul, eff)
+            why = f"{code} resets that colour only"
         else:
-            ok = ops == want
-            why = f"{code} must do {want}"
-        rep.check(ok, "codes", b["path"], f"{code}", f"{why}; the arm does {ops}", loc(b, got[1]))
+            want, why = pre_state, f"{code} is not in the property's list: ignored"
+            if code in sgr.EFFECT_ON:
+                tolerated = [(fg, bg, ul, eff | bit[sgr.EFFECT_ON[code]])]      # following SGR (21 = double underline) is fine too
+            # ... and ignored whatever the style is: also from the state with every effect on
+            full = run(f"{ALLON};31;42;58;5;9;{code}")
+            full_want = (fg, bg, ul, all_bits)
+            if full != full_want and not (code in sgr.EFFECT_ON and full == (fg, bg, ul, all_bits | bit[sgr.EFFECT_ON[code]])):
+                got, want = full, full_want
+        ok = got == want or got in tolerated
+        if code in range(0, 10) or code in sgr.EFFECT_OFF or sgr.colour_code(code) or code in (39, 49, 59) or not ok:
+            rep.check(ok, "codes", b["path"], f"{code}", f"{why}; evaluated: {got}", loc(b))
+        rep.count()
+    unknown_ok = all((run(f"{PRE};{c}") == pre_state and run(f"{ALLON};31;42;58;5;9;{c}") == (("ansi", "Red"), ("ansi", "Green"), ("idx", 9), all_bits))
+                     or c in sgr.EFFECT_ON for c in range(0, 256)
+                     if c not in (0, 38, 48, 58, 39, 49, 59) and c not in range(1, 10) and c not in sgr.EFFECT_OFF and not sgr.colour_code(c))
+    rep.check(unknown_ok, "codes", b["path"], "unknown-codes-ignored", "every code outside the property's list leaves the style as it was", loc(b))
+    for code in (38, 48, 58):
+        slot = {38: 0, 48: 1, 58: 2}[code]
+        bad = []
+        for text, val, eff_extra in ((f"{code};5;200;3", ("idx", 200), bit["ITALIC"]), (f"{code};5;0", ("idx", 0), 0), (f"{code};5;255", ("idx", 255), 0),
+                                     (f"{code};2;1;2;3;3", ("rgb", 1, 2, 3), bit["ITALIC"]), (f"{code};2;255;0;128", ("rgb", 255, 0, 128), 0),
+                                     (f"1;{code};2;0;0;0;4", ("rgb", 0, 0, 0), bit["BOLD"] | bit["UNDERLINE"])):
+            want = [None, None, None, eff_extra]
+            want[slot] = val
+            got = run(text)
+            if got != tuple(want):
+                bad.append(f"parse({text!r}) = {got}, expected {tuple(want)}")
+        rep.check(not bad, "codes", b["path"], f"{code}", f"extended-colour introducer: ;5;n and ;2;r;g;b forms consume their arguments and the list goes on {bad[:2]}", loc(b))
+        rep.count()
+    rejects = ["x", "256", "300", "1;;2", "1;", ";1", "-1", " 1", "1 ", "1;x", "1;256", "1,2", "\u0661", "1;\u00e9"]
+    bad = [t for t in rejects if run(t) is not None]
+    rep.check(not bad, "codes", b["path"], "rejects-non-numbers", f"descriptions that are not lists of numbers 0..=255 give no style: accepted {bad}", loc(b))
+    zeros = {"01;034": (("ansi", "Blue"), None, None, bit["BOLD"]), "001": (None, None, None, bit["BOLD"]), "0;1": (None, None, None, bit["BOLD"]),
+             "00;1": (None, None, None, bit["BOLD"])}
+    bad = [f"{t!r}: {run(t)}" for t, w in zeros.items() if run(t) != w]
+    rep.check(not bad, "codes", b["path"], "leading-zeros", f"zero-padded codes are the same codes {bad[:2]}", loc(b))
 
 
 def rule_extended(facts, rep):
